@@ -59,13 +59,11 @@ impl BytesPartialDecoderTraits for StripSuffixPartialDecoder {
         for (bytes, byte_range) in bytes.into_iter().zip(decoded_regions) {
             let bytes = match byte_range {
                 ByteRange::FromStart(_, Some(_)) => bytes,
-                ByteRange::FromStart(_, None) => {
-                    let length = bytes.len() - self.suffix_size;
-                    Cow::Owned(bytes[..length].to_vec())
-                }
-                ByteRange::Suffix(_) => {
-                    let length = bytes.len() as u64 - (self.suffix_size as u64);
-                    let length = usize::try_from(length).unwrap();
+                ByteRange::FromStart(_, None) | ByteRange::Suffix(_) => {
+                    // The value may be shorter than the suffix (e.g. truncated)
+                    let length = bytes.len().checked_sub(self.suffix_size).ok_or_else(|| {
+                        CodecError::Other("the value is shorter than its checksum".to_string())
+                    })?;
                     Cow::Owned(bytes[..length].to_vec())
                 }
             };
@@ -119,13 +117,11 @@ impl AsyncBytesPartialDecoderTraits for AsyncStripSuffixPartialDecoder {
         for (bytes, byte_range) in bytes.into_iter().zip(decoded_regions) {
             let bytes = match byte_range {
                 ByteRange::FromStart(_, Some(_)) => bytes,
-                ByteRange::FromStart(_, None) => {
-                    let length = bytes.len() - self.suffix_size;
-                    Cow::Owned(bytes[..length].to_vec())
-                }
-                ByteRange::Suffix(_) => {
-                    let length = bytes.len() as u64 - (self.suffix_size as u64);
-                    let length = usize::try_from(length).unwrap();
+                ByteRange::FromStart(_, None) | ByteRange::Suffix(_) => {
+                    // The value may be shorter than the suffix (e.g. truncated)
+                    let length = bytes.len().checked_sub(self.suffix_size).ok_or_else(|| {
+                        CodecError::Other("the value is shorter than its checksum".to_string())
+                    })?;
                     Cow::Owned(bytes[..length].to_vec())
                 }
             };
